@@ -415,10 +415,13 @@ impl World {
         poll_fn(|cx| {
             let mut gs = self.gates.borrow_mut();
             let g = &mut gs[id];
+            // (a handler that is still alive after its connection's task has completed is not helped along any
+            // more: the library has to cancel it; if it does not, it stays parked and the run shows it)
+            let conn_over = matches!(g.kind, GateKind::Publish | GateKind::Proto) && self.conn_done.borrow().get(g.conn).is_some_and(Option::is_some);
             if let Some(o) = g.opened.clone() {
                 g.parked = false;
                 Poll::Ready(o)
-            } else if self.auto_open.get() {
+            } else if self.auto_open.get() && !conn_over {
                 g.opened = Some(Outcome::Ok);
                 g.parked = false;
                 Poll::Ready(Outcome::Ok)
